@@ -3,6 +3,7 @@ pub mod checks;
 pub mod exec;
 pub mod generate;
 pub mod run;
+pub mod sched;
 pub mod kinds;
 pub mod model;
 pub mod num;
